@@ -933,6 +933,85 @@ func TestVerifParseStandin(t *testing.T) {
 }
 `
 
+
+const idlStandinTest = `package idl
+
+import (
+	"fmt"
+	"os"
+	"strings"
+	"testing"
+	"time"
+)
+
+// TestVerifIDLStandin: idl.ParseIDL (goparsec combinators plus type resolution) is not under
+// contract; bounded check. Every case is announced before it runs, so that a fatal error of the
+// runtime (stack overflow, out of memory), which no recover() can intercept, still names its input.
+func TestVerifIDLStandin(t *testing.T) {
+	base := []string{
+		"package p\ninterface I\n\tfn f(a: int32) -> str //uid:100\n\tsig s(a: uint32, b: str) //uid:101\n\tprop p(v: float32) //uid:102\nend\n",
+		"package p\nstruct A\n\ta: int32\n\tb: Vec<str>\n\tc: Map<str,int32>\nend\ninterface I\n\tfn f(x: A) -> Vec<A>\nend\n",
+		"package p\nstruct A\n\ta: B\nend\nstruct B\n\tb: Vec<Map<str,Tuple<int32,str>>>\nend\ninterface I\n\tfn f(x: A) -> B\n\tfn g() -> obj\n\tfn h(v: any)\nend\n",
+		"package p\nenum E\n\tconst a = 1\n\tconst b = 2\nend\ninterface I\n\tfn f(e: E)\nend\n",
+	}
+	var cases []string
+	cases = append(cases, base...)
+	// type references that do not resolve to a finite type: self, mutual and longer cycles, a cycle
+	// through a container, an unknown name, a struct named like a basic type
+	cases = append(cases,
+		"package p\nstruct A\n\ta: A\nend\ninterface I\n\tfn f(x: A)\nend\n",
+		"package p\nstruct A\n\ta: B\nend\nstruct B\n\tb: A\nend\ninterface I\n\tfn f(x: A)\nend\n",
+		"package p\nstruct A\n\ta: B\nend\nstruct B\n\tb: C\nend\nstruct C\n\tc: A\nend\ninterface I\n\tfn f() -> C\nend\n",
+		"package p\nstruct A\n\ta: Vec<A>\nend\ninterface I\n\tsig s(x: A)\nend\n",
+		"package p\nstruct A\n\ta: Map<str,A>\nend\ninterface I\n\tprop q(x: A)\nend\n",
+		"package p\ninterface I\n\tfn f(x: Nowhere) -> Nowhere\nend\n",
+		"package p\nstruct str\n\ta: str\nend\ninterface I\n\tfn f(x: str)\nend\n",
+		"package p\ninterface I\n\tfn f(x: I) -> I\nend\n",
+	)
+	// every base text with one line deleted, one line duplicated, or truncated after any line
+	for _, b := range base {
+		lines := strings.SplitAfter(b, "\n")
+		for i := range lines {
+			cases = append(cases, strings.Join(append(append([]string{}, lines[:i]...), lines[i+1:]...), ""))
+			cases = append(cases, strings.Join(append(append(append([]string{}, lines[:i+1]...), lines[i]), lines[i+1:]...), ""))
+			cases = append(cases, strings.Join(lines[:i], ""))
+		}
+	}
+	// container nesting sweep: linear-time budget
+	maxDepth := %d
+	for d := 1; d <= maxDepth; d++ {
+		cases = append(cases, "package p\ninterface I\n\tfn f(x: "+strings.Repeat("Vec<", d)+"int32"+strings.Repeat(">", d)+")\nend\n")
+		cases = append(cases, "package p\ninterface I\n\tfn f(x: "+strings.Repeat("Vec<", d)+"int32)\nend\n")
+	}
+	for i, c := range cases {
+		fmt.Fprintf(os.Stdout, "VERIF-STANDIN-CASE %%d %%q\n", i, c)
+		t0 := time.Now()
+		func() {
+			defer func() {
+				if p := recover(); p != nil {
+					fmt.Fprintf(os.Stdout, "VERIF-STANDIN-FAIL panic on %%q: %%v\n", c, p)
+				}
+			}()
+			metas, err := ParseIDL(strings.NewReader(c))
+			if err == nil {
+				// a package that is returned must be usable: its signatures can be asked for
+				for _, m := range metas {
+					_ = m.JSON()
+				}
+			}
+		}()
+		if el := time.Since(t0); el > 2*time.Second {
+			fmt.Fprintf(os.Stdout, "VERIF-STANDIN-FAIL %%q took %%v\n", c, el)
+		}
+	}
+	fmt.Fprintf(os.Stdout, "VERIF-STANDIN-OK cases=%%d\n", len(cases))
+}
+`
+
+type standinSpec struct {
+	name, pkgDir, src, testName, function, bound, obligation string
+}
+
 func runBoundedStandins(prop, tier, repo, verif string, seed int, violate func(string, bool), writeReplay func(string, map[string]interface{}) string) interface{} {
 	if prop != "C07" {
 		return nil
@@ -941,8 +1020,26 @@ func runBoundedStandins(prop, tier, repo, verif string, seed int, violate func(s
 	if tier == "thorough" {
 		maxLen, maxDepth = 4, 22
 	}
-	src := fmt.Sprintf(parseStandinTest, maxLen, maxDepth)
-	dir := filepath.Join(repo, "meta", "signature")
+	specs := []standinSpec{
+		{"bounded_signature.Parse", filepath.Join("meta", "signature"), fmt.Sprintf(parseStandinTest, maxLen, maxDepth), "TestVerifParseStandin",
+			"meta/signature.Parse (goparsec combinator tree, outside the verifier's reach)",
+			fmt.Sprintf("every string of length <= %d over a 27-character signature alphabet, and 325 tuple/struct annotation shapes (member list x annotation x wrapper), must return without panic; for each bracket kind, well-formed nesting depth 1..%d and malformed (unclosed / truncated) nestings up to depth %d+8 must return within 200ms + 5ms*depth", maxLen, maxDepth, maxDepth),
+			"bounded/meta/signature.Parse"},
+		{"bounded_idl.ParseIDL", filepath.Join("meta", "idl"), fmt.Sprintf(idlStandinTest, maxDepth), "TestVerifIDLStandin",
+			"meta/idl.ParseIDL (goparsec combinator tree plus type resolution, outside the verifier's reach)",
+			fmt.Sprintf("4 well-formed IDL texts (interfaces, structs, enums, containers) and each of them with one line deleted, one line duplicated, or cut after any line; 8 texts whose type references do not resolve to a finite type (self / mutual / longer cycles, cycles through a container, unknown names, a struct named like a basic type, an interface used as a type); container nestings of depth 1..%d, closed and unclosed: each must return a package or an error without panic or fatal error within 2 s, and a returned package must be printable", maxDepth),
+			"bounded/meta/idl.ParseIDL"},
+	}
+	var all []interface{}
+	for _, sp := range specs {
+		all = append(all, runStandin(sp, repo, violate, writeReplay))
+	}
+	return all
+}
+
+func runStandin(sp standinSpec, repo string, violate func(string, bool), writeReplay func(string, map[string]interface{}) string) interface{} {
+	src := sp.src
+	dir := filepath.Join(repo, sp.pkgDir)
 	tmp, err := os.MkdirTemp("", "verif-standin")
 	if err != nil {
 		return map[string]interface{}{"error": err.Error()}
@@ -955,7 +1052,7 @@ func runBoundedStandins(prop, tier, repo, verif string, seed int, violate func(s
 	os.WriteFile(ovf, ov, 0o644)
 	ctx, cancel := context.WithTimeout(context.Background(), 300*time.Second)
 	defer cancel()
-	cmd := exec.CommandContext(ctx, "go", "test", "-overlay", ovf, "-v", "-vet=off", "-count=1", "-timeout", "240s", "-run", "^TestVerifParseStandin$", ".")
+	cmd := exec.CommandContext(ctx, "go", "test", "-overlay", ovf, "-v", "-vet=off", "-count=1", "-timeout", "240s", "-run", "^"+sp.testName+"$", ".")
 	cmd.Dir = dir
 	cmd.Env = append(os.Environ(), "GOFLAGS=-mod=mod", "GOPROXY=off", "GOSUMDB=off", "GOTOOLCHAIN=local")
 	t0 := time.Now()
@@ -963,12 +1060,16 @@ func runBoundedStandins(prop, tier, repo, verif string, seed int, violate func(s
 	out := string(outb)
 	res := map[string]interface{}{
 		"label":    "bounded",
-		"function": "meta/signature.Parse (goparsec combinator tree, outside the verifier's reach)",
-		"bound":    fmt.Sprintf("every string of length <= %d over a 27-character signature alphabet, and 325 tuple/struct annotation shapes (member list x annotation x wrapper), must return without panic; for each bracket kind, well-formed nesting depth 1..%d and malformed (unclosed / truncated) nestings up to depth %d+8 must return within 200ms + 5ms*depth", maxLen, maxDepth, maxDepth),
+		"function": sp.function,
+		"bound":    sp.bound,
 		"seconds":  time.Since(t0).Seconds(),
 	}
 	var fails []string
+	lastCase := ""
 	for _, l := range strings.Split(out, "\n") {
+		if strings.HasPrefix(l, "VERIF-STANDIN-CASE ") {
+			lastCase = strings.TrimPrefix(l, "VERIF-STANDIN-CASE ")
+		}
 		if strings.HasPrefix(l, "VERIF-STANDIN-FAIL") {
 			fails = append(fails, strings.TrimPrefix(l, "VERIF-STANDIN-FAIL "))
 		}
@@ -977,11 +1078,22 @@ func runBoundedStandins(prop, tier, repo, verif string, seed int, violate func(s
 		}
 	}
 	if _, ok := res["result"]; !ok && len(fails) == 0 {
-		fails = append(fails, "stand-in test did not complete: "+trunc(out, 400))
+		why := "stand-in test did not complete"
+		for _, l := range strings.Split(out, "\n") {
+			if strings.HasPrefix(l, "fatal error:") || strings.HasPrefix(l, "panic:") {
+				why = l
+				break
+			}
+		}
+		if lastCase != "" {
+			fails = append(fails, why+" on case "+lastCase)
+		} else {
+			fails = append(fails, why+": "+trunc(out, 400))
+		}
 	}
 	if len(fails) > 0 {
 		res["failures"] = fails
-		p := writeReplay("bounded_signature.Parse", map[string]interface{}{"status": "bounded-stand-in-failed", "obligation": "bounded/meta/signature.Parse",
+		p := writeReplay(sp.name, map[string]interface{}{"status": "bounded-stand-in-failed", "obligation": sp.obligation,
 			"detail": fails, "test": src, "inputs": fails[0]})
 		violate(p, false)
 	}
